@@ -355,6 +355,7 @@ func genC13(c *fw.Ctx) {
 	}
 	rec(maxSel)
 	genC13Tree(c)
+	genC13Shared(c)
 	if docTap != nil {
 		return
 	}
@@ -601,4 +602,109 @@ func genC13Tree(c *fw.Ctx) {
 		}
 	}
 	rec()
+}
+
+// genC13Shared: one named type as the body of several Path directives. Four paths - two of them
+// end in {id} below different ancestors, one of which has a declared parameter of its own - in ALL
+// orders x each {id} prefix declared by `Path @pid`, by an inline object, or not at all x {shop}
+// declared by `Path @pshop`, inline, or not at all. Every interaction lists exactly the declared
+// parameters of its own prefixes.
+func genC13Shared(c *fw.Ctx) {
+	opt := drv.Options{FixedSeed: true}
+	paths := []string{"/s/{shop}/c/{id}", "/d/{id}", "/s/{shop}", "/e/{id}/x"}
+	methods := []string{"GET", "POST", "PUT", "PATCH"}
+	idHolders := []int{0, 1, 3}
+	permutations(len(paths), func(order []int) bool {
+		for code := 0; code < 27*3; code++ {
+			if c.Expired() {
+				return false
+			}
+			if !c.Next() {
+				continue
+			}
+			c.Count("evaluations", 1)
+			x := code
+			how := map[int]int{} // path index -> 0 none, 1 type reference, 2 inline
+			for _, h := range idHolders {
+				how[h] = x % 3
+				x /= 3
+			}
+			shopHow := x % 3
+			nodes := []*doc.Node{doc.Jsight()}
+			declared := map[string]string{}
+			for _, pi := range order {
+				m := doc.N(methods[pi], paths[pi]).WithKids(doc.N("200", "any"))
+				m.Paren = true
+				pp, _ := refPathParams(paths[pi])
+				switch {
+				case pi == 2 && shopHow == 1:
+					m.Kids = append([]*doc.Node{doc.N("Path").WithBody("@pshop")}, m.Kids...)
+				case pi == 2 && shopHow == 2:
+					m.Kids = append([]*doc.Node{doc.N("Path").WithBody("{\n  \"shop\": \"s1\"\n}")}, m.Kids...)
+				case how[pi] == 1:
+					m.Kids = append([]*doc.Node{doc.N("Path").WithBody("@pid")}, m.Kids...)
+				case how[pi] == 2:
+					m.Kids = append([]*doc.Node{doc.N("Path").WithBody("{\n  \"id\": 1\n}")}, m.Kids...)
+				}
+				if pi == 2 && shopHow != 0 {
+					declared[pp[0].prefix] = "shop=s1"
+				}
+				if pi != 2 && how[pi] != 0 {
+					declared[pp[len(pp)-1].prefix] = "id=1"
+				}
+				nodes = append(nodes, m)
+			}
+			nodes = append(nodes, doc.N("TYPE", "@pid").WithBody("{\n  \"id\": 1\n}"), doc.N("TYPE", "@pshop").WithBody("{\n  \"shop\": \"s1\"\n}"))
+			text := doc.Text(nodes)
+			label := fmt.Sprintf("shared-type order=%v id-declared=%v shop-declared=%d", order, how, shopHow)
+			c.Describe(label)
+			c.Distinct(text)
+			o := drv.RunMem("root.jst", text, opt)
+			if docTap != nil {
+				docTap(label, text, o)
+				continue
+			}
+			if o.Crashed() {
+				c.Count("skipped_crash", 1)
+				continue
+			}
+			if !o.OK() {
+				c.Violate("valid-paths-rejected", "C13:shared-rejected:"+firstWordsN(o.Msg, 4), label+": "+o.Short(), map[string]interface{}{"text": text})
+				continue
+			}
+			cat, _, err := jsonx.Parse([]byte(o.JSON))
+			if err != nil {
+				continue
+			}
+			in := cat.Get("interactions")
+			for _, pi := range order {
+				id := "http " + methods[pi] + " " + paths[pi]
+				e := in.Get(id)
+				if e == nil {
+					c.Violate("interaction-missing", "C13:interaction-missing", label+": no interaction "+id, map[string]interface{}{"text": text})
+					break
+				}
+				var want, got []string
+				pp, _ := refPathParams(paths[pi])
+				for _, p := range pp {
+					if v, ok := declared[p.prefix]; ok {
+						want = append(want, v)
+					}
+				}
+				pv := e.Get("pathVariables")
+				if pv != nil {
+					if ch := pv.Path("schema", "content", "children"); ch != nil {
+						for _, x := range ch.A {
+							got = append(got, x.Get("key").Str()+"="+x.Get("scalarValue").Str())
+						}
+					}
+				}
+				if strings.Join(got, ",") != strings.Join(want, ",") || (len(want) == 0 && pv != nil) {
+					c.Violate("path-variables", "C13:shared-binding:"+bindClass(got, want), fmt.Sprintf("%s: interaction %s has pathVariables %v, reference binding %v", label, id, got, want), map[string]interface{}{"text": text})
+					break
+				}
+			}
+		}
+		return true
+	})
 }
